@@ -1,7 +1,12 @@
 //! Kani harnesses over the real zkryptium code compiled against the model dependencies.
 #![allow(non_snake_case)]
 #![allow(dead_code)]
+#![allow(unused_imports)]
 pub mod common;
+pub mod stubs;
+
+#[cfg(kani)]
+mod h;
 
 #[cfg(test)]
 mod native_smoke;
